@@ -21,7 +21,7 @@ func (t *ThresholdSatisfactionLevels) Spec_Initialize(dmp *model.DecisionMakingP
 	for i, threshold := range t.Thresholds {
 		for _, c := range dmp.Criteria {
 			if _, ok := threshold[c.Id]; !ok {
-				panic(fmt.Errorf("value of criterion '%s' for threshold %d not found in %v", c.Id, i, threshold.AsKeyValue()))
+				panic(fmt.Errorf("value of criterion '%s' for threshold %d not found in %v", c.Id, i, threshold.Spec_AsKeyValue()))
 			}
 		}
 	}
@@ -42,10 +42,10 @@ func (t *ThresholdSatisfactionLevelsSource) Spec_OnCriterionAdded(
 	params SatisfactionLevels,
 	generator utils.ValueGenerator,
 ) ParamsAddition {
-	pParams := fetchParams(params)
-	thresholdsValues := assignNewThresholds(pParams, referenceCriterion, generator)
-	sortThresholds(thresholdsValues, t.ascending)
-	thresholds := mapThresholdsToEntries(criterion, thresholdsValues)
+	pParams := Spec_fetchParams(params)
+	thresholdsValues := Spec_assignNewThresholds(pParams, referenceCriterion, generator)
+	Spec_sortThresholds(thresholdsValues, t.ascending)
+	thresholds := Spec_mapThresholdsToEntries(criterion, thresholdsValues)
 	return ThresholdsUpdate{Thresholds: thresholds}
 }
 
@@ -60,7 +60,7 @@ func Spec_mapThresholdsToEntries(criterion *model.Criterion, thresholdsValues []
 func Spec_assignNewThresholds(params *ThresholdSatisfactionLevels, referenceCriterion *model.Criterion, generator utils.ValueGenerator) []model.Weight {
 	thresholds := make([]model.Weight, len(params.Thresholds))
 	for i, threshold := range params.Thresholds {
-		thresholds[i] = threshold.Fetch(referenceCriterion.Id) * generator()
+		thresholds[i] = threshold.Spec_Fetch(referenceCriterion.Id) * generator()
 	}
 	return thresholds
 }
@@ -77,8 +77,8 @@ func Spec_sortThresholds(thresholds []model.Weight, ascending bool) {
 }
 
 func (t *ThresholdSatisfactionLevelsSource) Spec_OnCriteriaRemoved(leftCriteria *model.Criteria, params SatisfactionLevels) SatisfactionLevels {
-	pParams := fetchParams(params)
-	thresholds := pParams.preserveLeftThresholds(leftCriteria)
+	pParams := Spec_fetchParams(params)
+	thresholds := pParams.Spec_preserveLeftThresholds(leftCriteria)
 	return &ThresholdSatisfactionLevels{
 		Thresholds:   thresholds,
 		currentIndex: pParams.currentIndex,
@@ -88,15 +88,15 @@ func (t *ThresholdSatisfactionLevelsSource) Spec_OnCriteriaRemoved(leftCriteria 
 func (t *ThresholdSatisfactionLevels) Spec_preserveLeftThresholds(leftCriteria *model.Criteria) []model.Weights {
 	thresholds := make([]model.Weights, len(t.Thresholds))
 	for i, threshold := range t.Thresholds {
-		thresholds[i] = *threshold.PreserveOnly(leftCriteria)
+		thresholds[i] = *threshold.Spec_PreserveOnly(leftCriteria)
 	}
 	return thresholds
 }
 
 func (t *ThresholdSatisfactionLevelsSource) Spec_Merge(params SatisfactionLevels, addition ParamsAddition) SatisfactionLevels {
-	pParams := fetchParams(params)
+	pParams := Spec_fetchParams(params)
 	add := addition.(ThresholdsUpdate)
-	newThresholds := pParams.merge(add)
+	newThresholds := pParams.Spec_merge(add)
 	return &ThresholdSatisfactionLevels{
 		Thresholds:   newThresholds,
 		currentIndex: pParams.currentIndex,
@@ -106,7 +106,7 @@ func (t *ThresholdSatisfactionLevelsSource) Spec_Merge(params SatisfactionLevels
 func (t *ThresholdSatisfactionLevels) Spec_merge(add ThresholdsUpdate) []model.Weights {
 	newThresholds := make([]model.Weights, len(t.Thresholds))
 	for i, thresholds := range t.Thresholds {
-		newThresholds[i] = *thresholds.Merge(&add.Thresholds[i])
+		newThresholds[i] = *thresholds.Spec_Merge(&add.Thresholds[i])
 	}
 	return newThresholds
 }
